@@ -437,6 +437,7 @@ func TestC06(t *testing.T) {
 	defer rec.Write()
 	useRecorder(rec)
 	defer func() { t.Log(rec.Summary()); fmt.Print(rec.SurveyReport()) }()
+	requireUsable(t, fmTypes(nil), 300)
 	mine := shardTypes(fmTypes(nil))
 	if len(mine) == 0 {
 		return
@@ -457,7 +458,7 @@ func TestC06(t *testing.T) {
 		rec.Eval(1)
 		rec.Class("variant/" + mt.Info.Variant)
 		for name, n := range map[string]int{"permuted": st.permuted, "repacked": st.repacked, "split-run": st.splitRun, "dup-scalar": st.dupScalar, "split-message": st.splitMsg,
-			"map-swapped": st.mapSwapped, "map-key-omitted": st.mapKeyOmitted, "map-value-omitted": st.mapValOmitted, "map-dup-key": st.mapDupKey, "unknown": st.unknown} {
+			"map-swapped": st.mapSwapped, "map-key-omitted": st.mapKeyOmitted, "map-value-omitted": st.mapValOmitted, "map-dup-key": st.mapDupKey, "map-entry-extra-field": st.mapExtra, "unknown": st.unknown} {
 			if n > 0 {
 				rec.Class("op/" + name)
 			}
@@ -478,6 +479,7 @@ func TestC07(t *testing.T) {
 	defer rec.Write()
 	useRecorder(rec)
 	defer func() { t.Log(rec.Summary()); fmt.Print(rec.SurveyReport()) }()
+	requireUsable(t, fmTypes(nil), 300)
 	mine := shardTypes(fmTypes(nil))
 	if len(mine) == 0 {
 		return
@@ -504,6 +506,7 @@ func TestC08(t *testing.T) {
 	useRecorder(rec)
 	defer func() { t.Log(rec.Summary()); fmt.Print(rec.SurveyReport()) }()
 	rec.Assume("allocation metered with runtime/metrics, confirmed by an exact MemStats bracket on a fresh message before it is reported")
+	requireUsable(t, fmTypes(nil), 300)
 	mine := shardTypes(fmTypes(nil))
 	if len(mine) == 0 {
 		return
